@@ -181,6 +181,7 @@ type world struct {
 	pend    []queued
 	rxbuf   []byte // the receive buffer of the `frames` operation (reused for every frame, like a transport's)
 	lsvc    map[uint64]*face.NDNLPLinkService
+	seq     uint64 // next NDNLPv2 sequence number used by the `fragint` operation
 	cur     int
 	nthr    int
 	dnlMs   int
@@ -347,6 +348,14 @@ func (wd *world) exec(line string) {
 		now := wd.now()
 		wd.threads[k].VerifSweepDeadNonces()
 		wd.pf("ev sweep %d %d\n", k, now)
+	case "cscap":
+		c, _ := strconv.Atoi(f[1])
+		table.SetCsCapacity(c)
+		wd.pf("ev %s\n", line)
+	case "fragint":
+		// fragint <n> int <face> <name> ... : the Interest arrives as n NDNLPv2 fragments through the real link service
+		n, _ := strconv.Atoi(f[1])
+		wd.doFragInt(n, f[2:])
 	case "frames":
 		// frames <face> <nameA> <nameB> <nonceA> <nonceB>: two LP-wrapped Interests arrive back to back through the real NDNLP link
 		// service of the face, in the same receive buffer; the faces' send loops run only after the second frame was read
@@ -467,10 +476,7 @@ func (wd *world) entryToken(tid int, f []string) string {
 	return tok
 }
 
-// doFrames: opA and opB are `int` operations without hints, PIT token and NextHopFaceId, arriving on the same face
-func (wd *world) doFrames(opA, opB string) {
-	fa, fb := strings.Fields(opA), strings.Fields(opB)
-	id := faceID(fa[1])
+func (wd *world) linkService(id uint64) *face.NDNLPLinkService {
 	if wd.lsvc == nil {
 		wd.lsvc = map[uint64]*face.NDNLPLinkService{}
 	}
@@ -482,6 +488,45 @@ func (wd *world) doFrames(opA, opB string) {
 	if wd.rxbuf == nil {
 		wd.rxbuf = make([]byte, 9000)
 	}
+	return ls
+}
+
+// doFragInt: f = fields of an `int` operation (no hints, PIT token, NextHopFaceId); the Interest is cut into n NDNLPv2 fragments
+// (Sequence, FragIndex, FragCount) that arrive one after the other in the receive buffer of the face's real link service
+func (wd *world) doFragInt(n int, f []string) {
+	id := faceID(f[1])
+	ls := wd.linkService(id)
+	wire := buildInterestWire(f)
+	if n < 2 {
+		n = 2
+	}
+	if n > len(wire) {
+		n = len(wire)
+	}
+	base := wd.seq + 1000
+	wd.seq += uint64(n) + 7
+	wd.pf("mark fragments %d\n", n)
+	now := wd.now()
+	tid := fw.HashNameToFwThread(parseName(f[2]))
+	for i := 0; i < n; i++ {
+		lo, hi := i*len(wire)/n, (i+1)*len(wire)/n
+		lp := &spec.Packet{LpPacket: &spec.LpPacket{Sequence: utils.IdPtr(base + uint64(i)), FragIndex: utils.IdPtr(uint64(i)),
+			FragCount: utils.IdPtr(uint64(n)), Fragment: enc.Wire{append([]byte{}, wire[lo:hi]...)}}}
+		e := spec.PacketEncoder{}
+		e.Init(lp)
+		k := copy(wd.rxbuf, e.Encode(lp).Join())
+		face.VerifFwHandleFrame(ls, wd.rxbuf[:k])
+	}
+	wd.drain()
+	wd.pf("ev int %d %s\n", now, strings.Join(f[1:], " "))
+	wd.pf("pick tok %s\npick thr %d\n", wd.entryToken(tid, f), tid)
+}
+
+// doFrames: opA and opB are `int` operations without hints, PIT token and NextHopFaceId, arriving on the same face
+func (wd *world) doFrames(opA, opB string) {
+	fa, fb := strings.Fields(opA), strings.Fields(opB)
+	id := faceID(fa[1])
+	ls := wd.linkService(id)
 	frame := func(f []string) []byte {
 		lp := &spec.Packet{LpPacket: &spec.LpPacket{Fragment: enc.Wire{buildInterestWire(f)}}}
 		e := spec.PacketEncoder{}
@@ -867,6 +912,13 @@ func (g *gen) interest() string {
 	}
 	p := []string{strconv.FormatUint(g.face(), 10), n, cbp, mbf, nonce, life, hop, hints, tok, nhf}
 	g.prev = append(g.prev, p)
+	if hints == "-" && tok == "-" && nhf == "-" && nonce != "-" && g.r.Intn(8) == 0 {
+		// arrives as 2 or 3 NDNLPv2 fragments through the real link service
+		if p[6] == "-" || p[6] == "0" {
+			p[6] = strconv.Itoa(2 + g.r.Intn(200))
+		}
+		return fmt.Sprintf("fragint %d int %s", 2+g.r.Intn(2), strings.Join(p, " "))
+	}
 	return "int " + strings.Join(p, " ")
 }
 
@@ -1060,7 +1112,42 @@ func (g *gen) script() []string {
 				fmt.Sprintf("frames %d /8.10/8.4/8.1 /8.0/8.4/8.1 %s %s", loc[g.r.Intn(len(loc))], a, b)}
 		}
 	}
-	switch g.r.Intn(9) {
+	switch g.r.Intn(12) {
+	case 11:
+		// a fragmented Interest with a hop limit that is forwarded
+		up := g.faces[g.r.Intn(len(g.faces))]
+		return []string{fmt.Sprintf("fib ins %s %d 0", n, up),
+			fmt.Sprintf("fragint %d int %d %s 0 0 %s 10000 %d - - -", 2+g.r.Intn(2), f1, n, a, 2+g.r.Intn(250))}
+	case 10:
+		// a pending CanBePrefix Interest, a short-lived one on a child name that expires and is reaped; then the same nonce from another
+		// face (a loop) and a different-nonce retransmission, both inside the suppression interval of the first send
+		ch := g.child(n)
+		if ch == "" {
+			return nil
+		}
+		up := g.faces[g.r.Intn(len(g.faces))]
+		ops := []string{fmt.Sprintf("fib ins %s %d 0", n, up),
+			fmt.Sprintf("int %d %s 1 0 %s 10000 - - - -", f1, n, a),
+			fmt.Sprintf("int %d %s 0 0 %s 50 - - - -", f2, ch, b), "sleep 150000000"}
+		for k := 0; k < g.wd.nthr; k++ {
+			ops = append(ops, fmt.Sprintf("tick %d", k))
+		}
+		return append(ops, fmt.Sprintf("int %d %s 1 0 %s 10000 - - - -", f2, n, a), fmt.Sprintf("int %d %s 1 0 %s 10000 - - - -", f1, n, c))
+	case 9:
+		// stale Data cached at the name of a pending MustBeFresh Interest is evicted (capacity 1) by caching other Data; then the
+		// same nonce from another face and a different-nonce retransmission inside the suppression interval
+		up := g.faces[g.r.Intn(len(g.faces))]
+		other := g.pick(g.names)
+		if other == n {
+			return nil
+		}
+		return []string{"cs 1 1", "cscap 1", fmt.Sprintf("fib ins %s %d 0", n, up),
+			fmt.Sprintf("data %d %s - -", up, n),
+			fmt.Sprintf("int %d %s 0 1 %s 10000 - - - -", f1, n, a),
+			fmt.Sprintf("data %d %s 100000 -", up, other),
+			fmt.Sprintf("int %d %s 0 1 %s 10000 - - - -", f2, n, a),
+			fmt.Sprintf("int %d %s 0 1 %s 10000 - - - -", f1, n, c),
+			"cscap 1024"}
 	case 8:
 		// best-route among next hops whose costs sit at the boundaries of the unsigned 64-bit range
 		cs := []string{"10", "9223372036854775828", "0", "18446744073709551615", "9223372036854775807", "9223372036854775808", "1", "4294967296"}
@@ -1357,6 +1444,13 @@ func TestTrace(t *testing.T) {
 				wd := newWorld(w, nt, dl, fm)
 				header(wd, k, universe, pool)
 				for i := 0; i < len(ops); i++ {
+					if strings.HasPrefix(ops[i], "mark fragments ") {
+						if i+1 < len(ops) && strings.HasPrefix(normalizeOp(ops[i+1]), "int ") {
+							wd.exec("fragint " + strings.Fields(ops[i])[2] + " " + normalizeOp(ops[i+1]))
+							i++
+						}
+						continue
+					}
 					if ops[i] == "mark frames" {
 						if i+2 < len(ops) && strings.HasPrefix(normalizeOp(ops[i+1]), "int ") && strings.HasPrefix(normalizeOp(ops[i+2]), "int ") {
 							time.Sleep(time.Microsecond)
